@@ -88,5 +88,9 @@ if os.path.exists(os.path.join(dst, "meta.json")):
     for k in ("needs_to_manifest", "summary", "comment"):
         if k in old:
             meta[k] = old[k]
+    if a.skip_suite:
+        for k in ("suite_with_change", "suite_passes_with_change"):
+            if k in old:
+                meta[k] = old[k]
 json.dump(meta, open(os.path.join(dst, "meta.json"), "w"), indent=1)
 print(json.dumps(meta, indent=1))
